@@ -333,3 +333,9 @@ func floatRounded(j string) string {
 	b, _ := json.Marshal(x)
 	return string(b)
 }
+
+// sameTemplate: two template contents identify the same revision content. The
+// revision encoding (shared with upstream) rounds integers above 2^53 through
+// float64, so identification tolerates exactly that; exactness is judged
+// separately by C08.update-revision-mismatch (known finding K2).
+func sameTemplate(a, b string) bool { return a == b || floatRounded(a) == floatRounded(b) }
